@@ -54,6 +54,8 @@ def run(prop, tier, cfg):
             out['undecided'].append('native checks timed out')
             return out
         txt = p.stdout + p.stderr
+        if os.environ.get('VP_NATIVE_LOG'):
+            open(os.environ['VP_NATIVE_LOG'], 'w').write(txt)
         if 'error: could not compile' in txt or 'error[E' in txt:
             out['undecided'].append('native checks do not compile against this tree: ' + txt[-400:].replace('\n', ' '))
             return out
@@ -75,6 +77,9 @@ def run(prop, tier, cfg):
             elif m:
                 rec['result'] = 'FAILED'
                 pm = re.search(r"thread '[^']*%s'[^\n]*panicked at ([^\n]*)\n([^\n]*)" % re.escape(t['name']), txt)
+                if not pm and len(names) == 1:
+                    # the assertion failed on a worker thread of the test (joined and re-raised): its report carries no test name
+                    pm = re.search(r"thread '[^']*'[^\n]*panicked at ([^\n]*)\n([^\n]*)", txt)
                 msg = ('%s\n%s' % (pm.group(1), pm.group(2)) if pm else '')[:1500]
                 if t.get('props') and prop not in t['props']:
                     # the contract belongs to other properties: for this one the unit's foundation is in doubt, nothing more
